@@ -13,7 +13,7 @@ for d in $(ls seeded | grep -E '^C[0-9]+-[a-z]$' | grep -E -- "$RE"); do
   base=$(/verif/bin/baseline.sh $W | head -1)
   grep -v "^$d	" seeded/RESULTS.tsv > seeded/RESULTS.tmp
   for P in $props; do
-    out=$(VERIF_REPO=$W bin/check.sh $P quick 2>&1)
+    out=$(VERIF_OUT=$W.out VERIF_REPO=$W bin/check.sh $P quick 2>&1)
     rc=$?
     keys=$(echo "$out" | grep -E '^VIOLATION' | sed -E 's/.* key=([^ ]+) cases.*/\1/' | head -4 | tr '\n' ' ')
     n=$(echo "$out" | grep -cE '^VIOLATION')
@@ -21,4 +21,4 @@ for d in $(ls seeded | grep -E '^C[0-9]+-[a-z]$' | grep -E -- "$RE"); do
   done
   sort seeded/RESULTS.tmp > seeded/RESULTS.tsv; rm -f seeded/RESULTS.tmp
 done
-cd /; git -C /repo worktree remove --force $W
+cd /; git -C /repo worktree remove --force $W; rm -rf $W.out
